@@ -1,14 +1,30 @@
-// genlogic translates the decision logic of a few Go functions of /repo into Lean definitions
-// (lean/Pokerface/Generated/Logic.lean) on every run.  The translation is purely syntactic
+// genlogic translates the decision logic of the Go functions of /repo listed in `specs` into Lean
+// definitions on every run: lean/Pokerface/Generated/Logic.lean (hand evaluation, betting, player
+// actions), LogicFlow.lean (flow of the hand: game.go, event.go, action.go) and LogicSM.lean (seat
+// manager), one file per group so that the obligations of one area do not depend on the others.  The translation is purely syntactic
 // (go/ast): structured `if` / `else`, assignments to the tracked variables, `append` of a
 // constant, early `return`; Go sub-expressions are mapped to Lean terms by a per-function table.
-// Theorems in Proofs/GeneratedLogic.lean state that each generated definition equals the
+// Theorems in Proofs/GeneratedLogic.lean, GeneratedLogicFlow.lean and GeneratedLogicSM.lean state that each generated definition equals the
 // corresponding definition of the hand-written model, so a change of the Go decision logic
 // changes the generated definition and breaks that proof obligation (K1, DESIGN §2).
 //
 // A function body the translator cannot handle (an unknown statement or expression) is a
 // translation failure: genlogic then emits a definition that cannot type-check, so the obligation
 // breaks instead of being silently skipped.
+//
+// Further constructs (all syntactic):
+//   - `stmts`: a whole statement, matched by its printed form, is read as an assignment to a tracked
+//     variable (used to record effects in order: `p.pay(delta, true)` becomes
+//     `eff := eff ++ [("pay", delta)]`, `p.state.Acted = true` becomes `eff := eff ++ [("acted", 0)]`);
+//   - `guards`: a whole statement, matched by its printed form, is read as `if cond then result`
+//     (used for the `for … range` bankroll loop of `Start`: any edit inside the loop changes the
+//     printed form, the statement is then unknown and the translation fails);
+//   - tag `switch` with constant cases, `fallthrough` and `default`, read as an if-chain;
+//   - `loop`/`around`: the body of the one top-level loop of a function is translated as a function of
+//     one iteration; the statements around the loop are pinned by their printed form;
+//   - `x++`, `x--` on tracked variables;
+//   - a `:=` that would shadow a tracked variable of an enclosing scope is a translation failure
+//     (the let-chain would leak the inner value).
 package main
 
 import (
@@ -20,21 +36,27 @@ import (
 	"go/token"
 	"os"
 	"path/filepath"
+	"sort"
 	"strings"
 )
 
 type spec struct {
 	file, recv, name string
 	leanName         string
-	params           string            // Lean binder list
-	resultType       string            // Lean type of the result
-	tracked          map[string]string // Go variable (printed form) -> initial Lean term
-	exprs            map[string]string // printed Go expression -> Lean term
-	skip             []string          // statements (printed, prefix match) to ignore
-	stopAt           string            // statement (prefix) at which translation stops and `result` is returned
-	result           string            // Lean term for the result at stop / at the end (may mention tracked variables)
-	returns          map[string]string // printed return expression -> Lean term
+	params           string               // Lean binder list
+	resultType       string               // Lean type of the result
+	tracked          map[string]string    // Go variable (printed form) -> initial Lean term
+	exprs            map[string]string    // printed Go expression -> Lean term
+	skip             []string             // statements (printed, prefix match) to ignore
+	stopAt           string               // statement (prefix) at which translation stops and `result` is returned
+	result           string               // Lean term for the result at stop / at the end (may mention tracked variables)
+	returns          map[string]string    // printed return expression -> Lean term
 	calls            map[string][2]string // printed call statement -> (tracked variable, Lean term assigned to it)
+	stmts            map[string][2]string // printed statement (any kind) -> (tracked variable, Lean term assigned to it)
+	guards           map[string][]string  // printed statement -> (Lean condition, Lean result when it holds[, tracked variable, Lean term assigned otherwise])
+	group            string               // output file: "" -> Logic.lean (hand evaluation, betting), "Flow" -> LogicFlow.lean, "SM" -> LogicSM.lean
+	loop             string               // if set: translate the BODY of the top-level loop with this printed header (one iteration)
+	around           []string             // with `loop`: the other top-level statements of the function, printed, in order
 }
 
 var fset = token.NewFileSet()
@@ -64,6 +86,10 @@ func (t *tr) expr(e ast.Expr) string {
 		return leanVar(p)
 	}
 	switch x := e.(type) {
+	case *ast.Ident:
+		if x.Name == "true" || x.Name == "false" {
+			return x.Name
+		}
 	case *ast.ParenExpr:
 		return "(" + t.expr(x.X) + ")"
 	case *ast.BasicLit:
@@ -76,6 +102,9 @@ func (t *tr) expr(e ast.Expr) string {
 	case *ast.UnaryExpr:
 		if x.Op == token.NOT {
 			return "(!" + t.expr(x.X) + ")"
+		}
+		if x.Op == token.SUB {
+			return "(-" + t.expr(x.X) + ")"
 		}
 	case *ast.CallExpr:
 		// int64(0) and friends
@@ -129,8 +158,19 @@ func (t *tr) skipped(s ast.Stmt) bool {
 	return false
 }
 
+type scope map[string]bool // tracked locals declared (by `:=`) in this or an enclosing scope
+
+func (d scope) inner() scope {
+	c := scope{}
+	for k := range d {
+		c[k] = true
+	}
+	return c
+}
+
 // block translates a statement list followed by the continuation `k` (a Lean term).
-func (t *tr) block(stmts []ast.Stmt, k string) string {
+// `own` holds the locals declared in the current Go block, `outer` those of the enclosing blocks.
+func (t *tr) block(stmts []ast.Stmt, k string, own, outer scope) string {
 	if len(stmts) == 0 {
 		return k
 	}
@@ -139,12 +179,34 @@ func (t *tr) block(stmts []ast.Stmt, k string) string {
 		return t.s.result
 	}
 	if t.skipped(s) {
-		return t.block(rest, k)
+		return t.block(rest, k, own, outer)
+	}
+	if c, ok := t.s.stmts[pr(s)]; ok {
+		return "(let " + leanVar(c[0]) + " := " + c[1] + "\n " + t.block(rest, k, own, outer) + ")"
+	}
+	if c, ok := t.s.guards[pr(s)]; ok {
+		cont := t.block(rest, k, own, outer)
+		if len(c) == 4 { // the statement also has an effect when the guard does not fire
+			cont = "(let " + leanVar(c[2]) + " := " + c[3] + "\n " + cont + ")"
+		}
+		return "(if " + c[0] + " then\n " + c[1] + "\n else\n " + cont + ")"
+	}
+	nested := func() scope { // the scope seen from a block nested in the current one
+		o := outer.inner()
+		for v := range own {
+			o[v] = true
+		}
+		return o
 	}
 	switch x := s.(type) {
 	case *ast.ReturnStmt:
-		if len(x.Results) == 1 {
-			p := pr(x.Results[0])
+		if len(x.Results) >= 1 {
+			// several results are looked up as "a, b"
+			var rs []string
+			for _, r := range x.Results {
+				rs = append(rs, pr(r))
+			}
+			p := strings.Join(rs, ", ")
 			if v, ok := t.s.returns[p]; ok {
 				return v
 			}
@@ -156,7 +218,7 @@ func (t *tr) block(stmts []ast.Stmt, k string) string {
 		return "UNTRANSLATED"
 	case *ast.ExprStmt:
 		if c, ok := t.s.calls[pr(x.X)]; ok {
-			return "(let " + leanVar(c[0]) + " := " + c[1] + "\n " + t.block(rest, k) + ")"
+			return "(let " + leanVar(c[0]) + " := " + c[1] + "\n " + t.block(rest, k, own, outer) + ")"
 		}
 		t.fail = append(t.fail, "call: "+pr(x))
 		return "UNTRANSLATED"
@@ -164,6 +226,13 @@ func (t *tr) block(stmts []ast.Stmt, k string) string {
 		if len(x.Lhs) == 1 && len(x.Rhs) == 1 {
 			l := pr(x.Lhs[0])
 			if _, ok := t.s.tracked[l]; ok {
+				if x.Tok == token.DEFINE {
+					if outer[l] {
+						t.fail = append(t.fail, "shadowing declaration: "+pr(x))
+						return "UNTRANSLATED"
+					}
+					own[l] = true
+				}
 				rhs := t.expr(x.Rhs[0])
 				switch x.Tok {
 				case token.ADD_ASSIGN:
@@ -171,32 +240,132 @@ func (t *tr) block(stmts []ast.Stmt, k string) string {
 				case token.SUB_ASSIGN:
 					rhs = "(" + leanVar(l) + " - " + rhs + ")"
 				}
-				return "(let " + leanVar(l) + " := " + rhs + "\n " + t.block(rest, k) + ")"
+				return "(let " + leanVar(l) + " := " + rhs + "\n " + t.block(rest, k, own, outer) + ")"
 			}
 		}
 		t.fail = append(t.fail, "assignment: "+pr(x))
+		return "UNTRANSLATED"
+	case *ast.IncDecStmt:
+		l := pr(x.X)
+		if _, ok := t.s.tracked[l]; ok {
+			op := " + "
+			if x.Tok == token.DEC {
+				op = " - "
+			}
+			return "(let " + leanVar(l) + " := (" + leanVar(l) + op + "(1 : Int))\n " + t.block(rest, k, own, outer) + ")"
+		}
+		t.fail = append(t.fail, "inc/dec: "+pr(x))
 		return "UNTRANSLATED"
 	case *ast.IfStmt:
 		if x.Init != nil {
 			t.fail = append(t.fail, "if with init: "+pr(x.Init))
 			return "UNTRANSLATED"
 		}
-		cont := t.block(rest, k)
-		thenB := t.block(x.Body.List, cont)
+		cond := t.expr(x.Cond)
+		in := nested() // before `rest` is translated: declarations that follow are not visible in the body
+		cont := t.block(rest, k, own, outer)
+		thenB := t.block(x.Body.List, cont, scope{}, in)
 		elseB := cont
 		switch e := x.Else.(type) {
 		case nil:
 		case *ast.BlockStmt:
-			elseB = t.block(e.List, cont)
+			elseB = t.block(e.List, cont, scope{}, in)
 		case *ast.IfStmt:
-			elseB = t.block([]ast.Stmt{e}, cont)
+			elseB = t.block([]ast.Stmt{e}, cont, scope{}, in)
 		}
-		return "(if " + t.expr(x.Cond) + " then\n " + thenB + "\n else\n " + elseB + ")"
+		return "(if " + cond + " then\n " + thenB + "\n else\n " + elseB + ")"
 	case *ast.BlockStmt:
-		return t.block(append(append([]ast.Stmt{}, x.List...), rest...), k)
+		in := nested()
+		return t.block(x.List, t.block(rest, k, own, outer), scope{}, in)
+	case *ast.SwitchStmt:
+		// switch tag { case c1, c2: … [fallthrough] … default: … }  read as an if-chain
+		if x.Init != nil || x.Tag == nil {
+			break
+		}
+		tag := t.expr(x.Tag)
+		in := nested()
+		cont := t.block(rest, k, own, outer)
+		clauses := x.Body.List
+		bodyOf := func(i int) ([]ast.Stmt, bool) { // the statements run when clause i is entered
+			var body []ast.Stmt
+			for ; i < len(clauses); i++ {
+				b := clauses[i].(*ast.CaseClause).Body
+				if n := len(b); n > 0 {
+					if br, ok := b[n-1].(*ast.BranchStmt); ok && br.Tok == token.FALLTHROUGH {
+						body = append(body, b[:n-1]...)
+						continue
+					}
+				}
+				return append(body, b...), true
+			}
+			return nil, false
+		}
+		out, closing := "", ""
+		deflt := cont
+		for i, c := range clauses {
+			cc := c.(*ast.CaseClause)
+			body, ok := bodyOf(i)
+			if !ok {
+				t.fail = append(t.fail, "fallthrough out of the switch: "+pr(x.Tag))
+				return "UNTRANSLATED"
+			}
+			b := t.block(body, cont, scope{}, in.inner())
+			if cc.List == nil {
+				deflt = b
+				continue
+			}
+			var alts []string
+			for _, e := range cc.List {
+				alts = append(alts, "("+tag+" == "+t.expr(e)+")")
+			}
+			out += "(if " + strings.Join(alts, " || ") + " then\n " + b + "\n else\n "
+			closing += ")"
+		}
+		return out + deflt + closing
 	}
 	t.fail = append(t.fail, "statement: "+pr(s))
 	return "UNTRANSLATED"
+}
+
+// loopBody returns the body of the top-level loop whose header is `s.loop`, after checking that the
+// other top-level statements are exactly `s.around`.
+func (t *tr) loopBody(stmts []ast.Stmt) []ast.Stmt {
+	var body []ast.Stmt
+	var others []string
+	found := 0
+	for _, st := range stmts {
+		var b *ast.BlockStmt
+		switch x := st.(type) {
+		case *ast.RangeStmt:
+			b = x.Body
+		case *ast.ForStmt:
+			b = x.Body
+		}
+		if b != nil && strings.HasPrefix(pr(st), t.s.loop+" {") {
+			body = b.List
+			found++
+			continue
+		}
+		others = append(others, pr(st))
+	}
+	if found != 1 {
+		t.fail = append(t.fail, "loop not found (or not unique): "+t.s.loop)
+		return []ast.Stmt{&ast.BadStmt{}}
+	}
+	if strings.Join(others, " ;; ") != strings.Join(t.s.around, " ;; ") {
+		t.fail = append(t.fail, "statements around the loop changed: "+strings.Join(others, " ;; "))
+		return []ast.Stmt{&ast.BadStmt{}}
+	}
+	return body
+}
+
+// add registers specs under an output group (one generated file, one proof file per group, so that a
+// change of the seat manager does not break the obligations about betting, and so on).
+func add(group string, ss ...*spec) {
+	for _, s := range ss {
+		s.group = group
+	}
+	specs = append(specs, ss...)
 }
 
 func findFunc(root string, s *spec) *ast.FuncDecl {
@@ -226,9 +395,9 @@ var specs = []*spec{
 		params: "(stack initial wager roundPot cw prev chips : Int) (isWager : Bool)", resultType: "Int × Int × Int × Int × String",
 		tracked: map[string]string{"p.state.StackSize": "stack", "p.state.Wager": "wager", "gs.Status.CurrentRoundPot": "roundPot",
 			"gs.Status.CurrentWager": "cw", "mark": "\"\"", "raised": "(0 : Int)", "minRaise": "(0 : Int)"},
-		exprs: map[string]string{"p.state.InitialStackSize": "initial", "gs.Status.PreviousRaiseSize": "prev", "chips": "chips", "isWager": "isWager"},
-		skip:  []string{"gs := p.game.GetState()", "if gs.Meta.Limit == \"pot\"", "p.state.DidAction ="},
-		calls: map[string][2]string{"p.game.BecomeRaiser(p)": {"mark", "\"raiser\""}, "p.game.ResetActedPlayers()": {"mark", "\"reset\""}},
+		exprs:   map[string]string{"p.state.InitialStackSize": "initial", "gs.Status.PreviousRaiseSize": "prev", "chips": "chips", "isWager": "isWager"},
+		skip:    []string{"gs := p.game.GetState()", "if gs.Meta.Limit == \"pot\"", "p.state.DidAction ="},
+		calls:   map[string][2]string{"p.game.BecomeRaiser(p)": {"mark", "\"raiser\""}, "p.game.ResetActedPlayers()": {"mark", "\"reset\""}},
 		returns: map[string]string{"nil": "(v_p_state_StackSize, v_p_state_Wager, v_gs_Status_CurrentRoundPot, v_gs_Status_CurrentWager, v_mark)"},
 		result:  "(v_p_state_StackSize, v_p_state_Wager, v_gs_Status_CurrentRoundPot, v_gs_Status_CurrentWager, v_mark)",
 	},
@@ -275,6 +444,605 @@ var specs = []*spec{
 	},
 }
 
+// ---- player.go: the player actions, read as (error, effects in order) ----
+
+const effT = "Option String × List (String × Int)"
+const effInit = "([] : List (String × Int))"
+
+// eff appends one effect to the effect list of an action.
+func eff(name, val string) string { return "(v_eff ++ [(\"" + name + "\", " + val + ")])" }
+
+func merge(ms ...map[string]string) map[string]string {
+	out := map[string]string{}
+	for _, m := range ms {
+		for k, v := range m {
+			out[k] = v
+		}
+	}
+	return out
+}
+
+var actionReturns = map[string]string{
+	"ErrInvalidAction": "(some \"ErrInvalidAction\", v_eff)",
+	"ErrIllegalRaise":  "(some \"ErrIllegalRaise\", v_eff)",
+	"p.game.Resume()":  "(none, " + eff("resume", "(0 : Int)") + ")",
+	"p.Call()":         "(none, " + eff("Call", "(0 : Int)") + ")",
+	"p.Allin()":        "(none, " + eff("Allin", "(0 : Int)") + ")",
+}
+
+// statements of player.go that are not modelled (DidAction, LastAction) or only fetch the state
+// (`pay` always returns nil, so the check of its error in `Pay` is dead code; matched in full)
+var actionSkip = []string{"gs := p.game.GetState()", "p.state.DidAction =", "p.game.UpdateLastAction(", "if err != nil { return err }"}
+
+func actionSpec(name, lean, params string, tracked, exprs map[string]string, stmts map[string][2]string) *spec {
+	st := map[string][2]string{"p.state.Acted = true": {"eff", eff("acted", "(0 : Int)")}}
+	for k, v := range stmts {
+		st[k] = v
+	}
+	return &spec{
+		file: "player.go", recv: "player", name: name, leanName: lean,
+		params: params, resultType: effT,
+		tracked: merge(map[string]string{"eff": effInit}, tracked),
+		exprs:   merge(map[string]string{"p.CheckAction(\"" + lean + "\")": "allowed"}, exprs),
+		skip:    actionSkip, stmts: st, returns: actionReturns, result: "(none, v_eff)",
+	}
+}
+
+var actionSpecs = []*spec{
+	actionSpec("Pass", "pass", "(allowed : Bool)", nil, nil, nil),
+	actionSpec("Check", "check", "(allowed : Bool)", nil, nil, nil),
+	actionSpec("Fold", "fold", "(allowed : Bool)", nil, nil,
+		map[string][2]string{"p.state.Fold = true": {"eff", eff("fold", "(0 : Int)")}}),
+	actionSpec("Pay", "pay", "(allowed : Bool) (chips : Int) (roundInitialized posBB posSB : Bool)", nil,
+		map[string]string{"chips": "chips", "gs.Status.CurrentEvent == \"RoundInitialized\"": "roundInitialized",
+			"p.CheckPosition(\"bb\")": "posBB", "p.CheckPosition(\"sb\")": "posSB"},
+		map[string][2]string{"err := p.pay(chips, true)": {"eff", eff("pay", "chips")}}),
+	actionSpec("Call", "call", "(allowed : Bool) (cw wager bb : Int)",
+		map[string]string{"delta": "(0 : Int)"},
+		map[string]string{"gs.Status.CurrentWager": "cw", "p.state.Wager": "wager", "gs.Meta.Blind.BB": "bb"},
+		map[string][2]string{"p.pay(delta, true)": {"eff", eff("pay", "v_delta")}}),
+	actionSpec("Allin", "allin", "(allowed : Bool) (stack initial cw prev : Int)",
+		map[string]string{"raised": "(0 : Int)"},
+		map[string]string{"gs.Status.CurrentWager": "cw", "gs.Status.PreviousRaiseSize": "prev",
+			"p.state.InitialStackSize": "initial"},
+		map[string][2]string{"gs.Status.PreviousRaiseSize = raised": {"eff", eff("prev", "v_raised")},
+			"p.pay(p.state.StackSize, true)": {"eff", eff("pay", "stack")}}),
+	actionSpec("Bet", "bet", "(allowed : Bool) (chips : Int)", nil,
+		map[string]string{"chips": "chips"},
+		map[string][2]string{"p.pay(chips, true)": {"eff", eff("pay", "chips")},
+			"p.game.GetState().Status.PreviousRaiseSize = p.state.Wager": {"eff", eff("recordBet", "(0 : Int)")}}),
+	actionSpec("Raise", "raise", "(allowed : Bool) (chipLevel cw wager initial prev : Int) (potLimit : Bool)",
+		map[string]string{"raised": "(0 : Int)", "required": "(0 : Int)", "maxRaise": "(0 : Int)"},
+		map[string]string{"chipLevel": "chipLevel", "gs.Status.CurrentWager": "cw", "gs.Status.PreviousRaiseSize": "prev",
+			"p.state.Wager": "wager", "p.state.InitialStackSize": "initial", "gs.Meta.Limit == \"pot\"": "potLimit"},
+		map[string][2]string{"gs.Status.PreviousRaiseSize = raised": {"eff", eff("prev", "v_raised")},
+			"p.pay(required, true)": {"eff", eff("pay", "v_required")}}),
+}
+
+func init() {
+	for _, s := range actionSpecs {
+		s.leanName = "act" + strings.ToUpper(s.leanName[:1]) + s.leanName[1:]
+	}
+	add("", actionSpecs...)
+}
+
+// ---- game.go / event.go: the flow decisions, read as the list of steps taken ----
+
+const stepsT = "List String"
+const stepsInit = "([] : List String)"
+
+func step(name string) string { return "(v_eff ++ [\"" + name + "\"])" }
+
+// stepReturns maps `return <call>` to "append the step and stop".
+func stepReturns(m map[string]string) map[string]string {
+	out := map[string]string{}
+	for k, v := range m {
+		out[k] = step(v)
+	}
+	return out
+}
+
+func stepStmts(m map[string]string) map[string][2]string {
+	out := map[string][2]string{}
+	for k, v := range m {
+		out[k] = [2]string{"eff", step(v)}
+	}
+	return out
+}
+
+const seekBBLoop = `for i := 0; i < g.GetPlayerCount(); i++ { p := g.NextPlayer() if p.CheckPosition("bb") { g.SetCurrentPlayer(g.NextPlayer()) break } g.SetCurrentPlayer(p) }`
+const dealHolesLoop = `for _, p := range g.gs.Players { p.HoleCards = g.Deal(g.gs.Meta.HoleCardsCount) }`
+const bankrollLoop = `for _, p := range g.gs.Players { if p.Bankroll <= 0 { return ErrNotEnoughBackroll } }`
+
+var flowSpecs = []*spec{
+	{
+		file: "game.go", recv: "game", name: "RequestPlayerAction", leanName: "requestPlayerAction",
+		params: "(alive movable : Int) (nextActed : Bool)", resultType: stepsT,
+		tracked: map[string]string{"eff": stepsInit},
+		exprs:   map[string]string{"g.GetAlivePlayerCount()": "alive", "g.GetMovablePlayerCount()": "movable", "p.State().Acted": "nextActed"},
+		skip:    []string{"p := g.NextPlayer()"},
+		returns: stepReturns(map[string]string{"g.EmitEvent(GameEvent_RoundClosed)": "RoundClosed", "g.SetCurrentPlayer(p)": "SetCurrentPlayer(NextPlayer)"}),
+		result:  "v_eff",
+	},
+	{
+		file: "game.go", recv: "game", name: "PrepareRound", leanName: "prepareRound",
+		params: "(round : String) (movable : Int)", resultType: stepsT,
+		tracked: map[string]string{"eff": stepsInit},
+		exprs:   map[string]string{"g.gs.Status.Round": "round", "g.GetMovablePlayerCount()": "movable"},
+		returns: stepReturns(map[string]string{"g.EmitEvent(GameEvent_RoundClosed)": "RoundClosed", "g.RequestReady()": "RequestReady"}),
+		result:  "v_eff",
+	},
+	{
+		file: "game.go", recv: "game", name: "nextRound", leanName: "nextRound",
+		params: "(alive : Int) (round : String)", resultType: stepsT,
+		tracked: map[string]string{"eff": stepsInit},
+		exprs:   map[string]string{"g.gs.Status.Round": "round", "g.GetAlivePlayerCount()": "alive"},
+		stmts:   stepStmts(map[string]string{"g.ResetRoundStatus()": "ResetRoundStatus", "g.ResetAllPlayerStatus()": "ResetAllPlayerStatus"}),
+		returns: stepReturns(map[string]string{"g.EmitEvent(GameEvent_GameCompleted)": "GameCompleted", "g.EnterFlopRound()": "EnterFlopRound",
+			"g.EnterTurnRound()": "EnterTurnRound", "g.EnterRiverRound()": "EnterRiverRound", "ErrUnknownRound": "ErrUnknownRound"}),
+		result: "v_eff",
+	},
+	{
+		file: "game.go", recv: "game", name: "Next", leanName: "next",
+		params: "(event round : String)", resultType: stepsT,
+		tracked: map[string]string{"eff": stepsInit},
+		exprs:   map[string]string{"g.gs.Status.Round": "round", "g.gs.Status.CurrentEvent": "event"},
+		skip:    []string{"g.UpdateLastAction("},
+		returns: stepReturns(map[string]string{"ErrNotClosedRound": "ErrNotClosedRound", "g.nextRound()": "nextRound", "nil": "nil"}),
+		result:  "v_eff",
+	},
+	{
+		file: "game.go", recv: "game", name: "StartRound", leanName: "startRound",
+		params: "(round : String) (movable : Int)", resultType: stepsT,
+		tracked: map[string]string{"eff": stepsInit},
+		exprs:   map[string]string{"g.gs.Status.Round": "round", "g.GetMovablePlayerCount()": "movable"},
+		skip:    []string{"if err != nil { return err }"},
+		stmts: stepStmts(map[string]string{"g.ResetAllPlayerAllowedActions()": "ResetAllPlayerAllowedActions",
+			"g.SetCurrentPlayer(g.Dealer())": "SetCurrentPlayer(Dealer)", seekBBLoop: "SeekBB", "_, err := g.StartAtDealer()": "StartAtDealer"}),
+		returns: stepReturns(map[string]string{"g.EmitEvent(GameEvent_RoundClosed)": "RoundClosed", "g.EmitEvent(GameEvent_RoundStarted)": "RoundStarted"}),
+		result:  "v_eff",
+	},
+	{
+		file: "game.go", recv: "game", name: "InitializeRound", leanName: "initializeRound",
+		params: "(round : String)", resultType: stepsT,
+		tracked: map[string]string{"eff": stepsInit},
+		exprs:   map[string]string{"g.gs.Status.Round": "round"},
+		skip:    []string{"if err != nil { return err }"},
+		stmts: stepStmts(map[string]string{dealHolesLoop: "DealHoles", "g.Burn(1)": "Burn(1)",
+			"g.gs.Status.Board = append(g.gs.Status.Board, g.Deal(3)...)": "Board(3)",
+			"g.gs.Status.Board = append(g.gs.Status.Board, g.Deal(1)...)": "Board(1)",
+			"_, err := g.StartAtDealer()":                                 "StartAtDealer", "err := g.UpdateCombinationOfAllPlayers()": "UpdateCombinationOfAllPlayers"}),
+		returns: stepReturns(map[string]string{"g.EmitEvent(GameEvent_RoundInitialized)": "RoundInitialized"}),
+		result:  "v_eff",
+	},
+	{
+		file: "event.go", recv: "game", name: "onReadiness", leanName: "onReadiness",
+		params: "(round : String)", resultType: stepsT,
+		tracked: map[string]string{"eff": stepsInit},
+		exprs:   map[string]string{"len(g.gs.Status.Round)": "(round.length : Int)"},
+		returns: stepReturns(map[string]string{"g.EmitEvent(GameEvent_Prepared)": "Prepared", "g.EmitEvent(GameEvent_RoundPrepared)": "RoundPrepared"}),
+		result:  "v_eff",
+	},
+	{
+		file: "event.go", recv: "game", name: "onPrepared", leanName: "onPrepared",
+		params: "(ante : Int)", resultType: stepsT,
+		tracked: map[string]string{"eff": stepsInit},
+		exprs:   map[string]string{"g.gs.Meta.Ante": "ante"},
+		returns: stepReturns(map[string]string{"g.RequestAnte()": "RequestAnte", "g.EnterPreflopRound()": "EnterPreflopRound"}),
+		result:  "v_eff",
+	},
+	{
+		file: "event.go", recv: "game", name: "onRoundPrepared", leanName: "onRoundPrepared",
+		params: "", resultType: stepsT,
+		tracked: map[string]string{"eff": stepsInit},
+		returns: stepReturns(map[string]string{"g.StartRound()": "StartRound"}),
+		result:  "v_eff",
+	},
+	{
+		file: "event.go", recv: "game", name: "onRoundInitialized", leanName: "onRoundInitialized",
+		params: "(round : String)", resultType: stepsT,
+		tracked: map[string]string{"eff": stepsInit},
+		exprs:   map[string]string{"g.gs.Status.Round": "round"},
+		returns: stepReturns(map[string]string{"g.RequestBlinds()": "RequestBlinds", "g.PrepareRound()": "PrepareRound"}),
+		result:  "v_eff",
+	},
+	{
+		file: "event.go", recv: "game", name: "onRoundClosed", leanName: "onRoundClosed",
+		params: "", resultType: stepsT,
+		tracked: map[string]string{"eff": stepsInit},
+		skip:    []string{"if err != nil { return err }"},
+		stmts:   stepStmts(map[string]string{"g.ResetAllPlayerAllowedActions()": "ResetAllPlayerAllowedActions", "err := g.updatePots()": "updatePots"}),
+		returns: map[string]string{"nil": "v_eff"},
+		result:  "v_eff",
+	},
+	{
+		file: "game.go", recv: "game", name: "Start", leanName: "start",
+		params: "(playerCount : Int) (noDealer anyBankrollLE0 : Bool) (deckLen : Int)", resultType: stepsT,
+		tracked: map[string]string{"eff": stepsInit},
+		exprs:   map[string]string{"g.GetPlayerCount()": "playerCount", "g.dealer == nil": "noDealer", "len(g.gs.Meta.Deck)": "deckLen"},
+		guards:  map[string][]string{bankrollLoop: {"anyBankrollLE0", step("ErrNotEnoughBackroll")}},
+		skip: []string{"g.gs.Status.Pots = make([]*pot.Pot, 0)", "g.gs.Status.Board = make([]string, 0)", "g.gs.Status.Burned = make([]string, 0)",
+			"g.gs.Status.CurrentEvent = \"\""},
+		returns: stepReturns(map[string]string{"ErrInsufficientNumberOfPlayers": "ErrInsufficientNumberOfPlayers", "ErrNoDealer": "ErrNoDealer",
+			"ErrNoDeck": "ErrNoDeck", "g.EmitEvent(GameEvent_Started)": "Started"}),
+		result: "v_eff",
+	},
+	{
+		file: "game.go", recv: "game", name: "Initialize", leanName: "initializeGame",
+		params: "(dealer bb : Int)", resultType: "Int × List String",
+		tracked: map[string]string{"eff": stepsInit, "g.gs.Status.MiniBet": "(0 : Int)"},
+		exprs:   map[string]string{"g.gs.Meta.Blind.Dealer": "dealer", "g.gs.Meta.Blind.BB": "bb"},
+		skip:    []string{"g.gs.Meta.Deck = ShuffleCards(g.gs.Meta.Deck)"},
+		stmts:   stepStmts(map[string]string{"g.ResetRoundStatus()": "ResetRoundStatus"}),
+		returns: map[string]string{"g.EmitEvent(GameEvent_Initialized)": "(v_g_gs_Status_MiniBet, " + step("Initialized") + ")"},
+		result:  "(v_g_gs_Status_MiniBet, v_eff)",
+	},
+}
+
+// one-line handlers of event.go / game.go: which function the event chain calls next
+func chainSpec(file, name, call, stepName string) *spec {
+	return &spec{file: file, recv: "game", name: name, leanName: strings.ToLower(name[:1]) + name[1:], params: "", resultType: stepsT,
+		tracked: map[string]string{"eff": stepsInit}, returns: stepReturns(map[string]string{call: stepName}), result: "v_eff"}
+}
+
+// ---- seat_manager/seat_manager.go ----
+
+var smSkip = []string{"sm.mu.Lock()", "defer sm.mu.Unlock()"}
+
+var smSpecs = []*spec{
+	{
+		file: "seat_manager/seat_manager.go", recv: "SeatManager", name: "Join", leanName: "smJoin",
+		params: "(seatID max sLen asLen : Int)", resultType: stepsT,
+		tracked: map[string]string{"eff": stepsInit},
+		exprs:   map[string]string{"seatID": "seatID", "sm.max": "max", "len(s)": "sLen", "len(as)": "asLen"},
+		skip:    append([]string{"s, as := sm.getAvailableSeats()"}, smSkip...),
+		returns: stepReturns(map[string]string{"-1, ErrInvalidSeat": "ErrInvalidSeat", "-1, ErrNoAvailableSeat": "ErrNoAvailableSeat",
+			"sm.join(seatID, p)": "join(seatID)", "sm.join(s[0], p)": "join(s[0])", "sm.join(as[0], p)": "join(as[0])",
+			"sm.join(s[rand.Intn(len(s)-1)], p)":   "join(s[rand.Intn(len(s)-1)])",
+			"sm.join(as[rand.Intn(len(as)-1)], p)": "join(as[rand.Intn(len(as)-1)])"}),
+		result: "v_eff",
+	},
+	{
+		file: "seat_manager/seat_manager.go", recv: "SeatManager", name: "join", leanName: "smJoinAt",
+		params: "(occupied : Bool)", resultType: stepsT,
+		tracked: map[string]string{"eff": stepsInit},
+		exprs:   map[string]string{"s.Player != nil": "occupied"},
+		skip:    []string{"s := sm.getSeat(seatID)"},
+		stmts:   stepStmts(map[string]string{"s.IsReserved = true": "reserve", "s.Player = p": "setPlayer"}),
+		returns: stepReturns(map[string]string{"-1, ErrNotAvailable": "ErrNotAvailable", "s.ID, nil": "return s.ID"}),
+		result:  "v_eff",
+	},
+	{
+		file: "seat_manager/seat_manager.go", recv: "SeatManager", name: "leave", leanName: "smLeave",
+		params: "(missing empty : Bool)", resultType: stepsT,
+		tracked: map[string]string{"eff": stepsInit},
+		exprs:   map[string]string{"s == nil": "missing", "s.Player == nil": "empty"},
+		skip:    []string{"s := sm.getSeat(seatID)"},
+		stmts:   stepStmts(map[string]string{"s.IsReserved = false": "unreserve", "s.Player = nil": "clearPlayer"}),
+		returns: stepReturns(map[string]string{"ErrNotFoundSeat": "ErrNotFoundSeat", "ErrEmptySeat": "ErrEmptySeat", "nil": "nil"}),
+		result:  "v_eff",
+	},
+	{
+		file: "seat_manager/seat_manager.go", recv: "SeatManager", name: "Leave", leanName: "smLeaveOp",
+		params: "", resultType: stepsT,
+		tracked: map[string]string{"eff": stepsInit}, skip: smSkip,
+		returns: stepReturns(map[string]string{"sm.leave(seatID)": "leave(seatID)"}),
+		result:  "v_eff",
+	},
+	{
+		file: "seat_manager/seat_manager.go", recv: "SeatManager", name: "Seat", leanName: "smSeat",
+		params: "(missing : Bool)", resultType: stepsT,
+		tracked: map[string]string{"eff": stepsInit},
+		exprs:   map[string]string{"seat == nil": "missing"},
+		skip:    append([]string{"seat := sm.getSeat(seatID)"}, smSkip...),
+		stmts:   stepStmts(map[string]string{"seat.IsReserved = false": "unreserve"}),
+		returns: stepReturns(map[string]string{"ErrNotFoundSeat": "ErrNotFoundSeat", "nil": "nil"}),
+		result:  "v_eff",
+	},
+	{
+		file: "seat_manager/seat_manager.go", recv: "SeatManager", name: "Reserve", leanName: "smReserve",
+		params: "(missing : Bool)", resultType: stepsT,
+		tracked: map[string]string{"eff": stepsInit},
+		exprs:   map[string]string{"seat == nil": "missing"},
+		skip:    append([]string{"seat := sm.getSeat(seatID)"}, smSkip...),
+		stmts:   stepStmts(map[string]string{"seat.IsReserved = true": "reserve"}),
+		returns: stepReturns(map[string]string{"ErrNotFoundSeat": "ErrNotFoundSeat", "nil": "nil"}),
+		result:  "v_eff",
+	},
+	{
+		file: "seat_manager/seat_manager.go", recv: "SeatManager", name: "Next", leanName: "smNext",
+		params: "(dealerFound : Bool) (playable : Int)", resultType: stepsT,
+		tracked: map[string]string{"eff": stepsInit},
+		exprs:   map[string]string{"sm.nextDealer() == nil": "(!dealerFound)", "sm.getPlayableSeatCount()": "playable"},
+		skip:    smSkip,
+		returns: stepReturns(map[string]string{"ErrInsufficientNumberOfPlayers": "ErrInsufficientNumberOfPlayers", "sm.renewSeatStatus()": "renewSeatStatus"}),
+		result:  "v_eff",
+	},
+}
+
+func init() {
+	add("SM", smSpecs...)
+	add("Flow", flowSpecs...)
+	add("Flow",
+		chainSpec("event.go", "onStarted", "g.Initialize()", "Initialize"),
+		chainSpec("event.go", "onInitialized", "g.Prepare()", "Prepare"),
+		chainSpec("game.go", "Prepare", "g.RequestReady()", "RequestReady"),
+		chainSpec("event.go", "onBlindsPaid", "g.PrepareRound()", "PrepareRound"),
+		chainSpec("event.go", "onRoundStarted", "g.RequestPlayerAction()", "RequestPlayerAction"),
+		chainSpec("event.go", "onPreflopRoundEntered", "g.InitializeRound()", "InitializeRound"),
+		chainSpec("event.go", "onFlopRoundEntered", "g.InitializeRound()", "InitializeRound"),
+		chainSpec("event.go", "onTurnRoundEntered", "g.InitializeRound()", "InitializeRound"),
+		chainSpec("event.go", "onRiverRoundEntered", "g.InitializeRound()", "InitializeRound"),
+		chainSpec("event.go", "onGameCompleted", "g.EmitEvent(GameEvent_SettlementRequested)", "SettlementRequested"),
+		chainSpec("event.go", "onSettlementCompleted", "g.EmitEvent(GameEvent_GameClosed)", "GameClosed"),
+	)
+}
+
+// ---- action.go and the remaining small functions of game.go / event.go / player.go ----
+
+const payAnteLoop = `for _, p := range g.GetPlayers() { err := p.PayAnte() if err != nil { return err } }`
+const payBlindsLoop = `for _, p := range g.GetPlayers() { err := p.PayBlinds() if err != nil { return err } }`
+
+var moreSpecs = []*spec{
+	{
+		file: "action.go", recv: "game", name: "ReadyForAll", leanName: "readyForAll",
+		params: "(event : String)", resultType: stepsT,
+		tracked: map[string]string{"eff": stepsInit},
+		exprs:   map[string]string{"g.gs.Status.CurrentEvent": "event"},
+		stmts:   stepStmts(map[string]string{"g.ResetAllPlayerAllowedActions()": "ResetAllPlayerAllowedActions"}),
+		returns: stepReturns(map[string]string{"ErrInvalidAction": "ErrInvalidAction", "g.EmitEvent(GameEvent_Readiness)": "Readiness"}),
+		result:  "v_eff",
+	},
+	{
+		file: "action.go", recv: "game", name: "PayAnte", leanName: "gamePayAnte",
+		params: "(ante : Int) (event : String) (loopFailed : Bool)", resultType: stepsT,
+		tracked: map[string]string{"eff": stepsInit},
+		exprs:   map[string]string{"g.gs.Status.CurrentEvent": "event", "g.gs.Meta.Ante": "ante"},
+		guards:  map[string][]string{payAnteLoop: {"loopFailed", step("PayAnteLoop: return err"), "eff", step("PayAnteLoop")}},
+		stmts:   stepStmts(map[string]string{"g.ResetAllPlayerAllowedActions()": "ResetAllPlayerAllowedActions"}),
+		returns: stepReturns(map[string]string{"ErrInvalidAction": "ErrInvalidAction", "g.EmitEvent(GameEvent_AntePaid)": "AntePaid"}),
+		result:  "v_eff",
+	},
+	{
+		file: "action.go", recv: "game", name: "PayBlinds", leanName: "gamePayBlinds",
+		params: "(event : String) (bb : Int)", resultType: stepsT,
+		tracked: map[string]string{"eff": stepsInit},
+		exprs:   map[string]string{"g.gs.Status.CurrentEvent": "event", "g.gs.Meta.Blind.BB": "bb"},
+		stmts: stepStmts(map[string]string{payBlindsLoop: "PayBlindsLoop", "g.ResetAllPlayerAllowedActions()": "ResetAllPlayerAllowedActions",
+			"g.gs.Status.PreviousRaiseSize = g.gs.Meta.Blind.BB":     "PreviousRaiseSize = Blind.BB",
+			"g.gs.Status.PreviousRaiseSize = g.gs.Meta.Blind.Dealer": "PreviousRaiseSize = Blind.Dealer"}),
+		returns: stepReturns(map[string]string{"ErrInvalidAction": "ErrInvalidAction", "g.EmitEvent(GameEvent_BlindsPaid)": "BlindsPaid"}),
+		result:  "v_eff",
+	},
+	{
+		file: "event.go", recv: "game", name: "onAntePaid", leanName: "onAntePaid",
+		params: "", resultType: stepsT,
+		tracked: map[string]string{"eff": stepsInit},
+		skip:    []string{"if err != nil { return err }"},
+		stmts: stepStmts(map[string]string{"err := g.updatePots()": "updatePots", "g.ResetAllPlayerStatus()": "ResetAllPlayerStatus",
+			"g.ResetRoundStatus()": "ResetRoundStatus"}),
+		returns: stepReturns(map[string]string{"g.EnterPreflopRound()": "EnterPreflopRound"}),
+		result:  "v_eff",
+	},
+	{
+		file: "event.go", recv: "game", name: "onSettlementRequested", leanName: "onSettlementRequested",
+		params: "", resultType: stepsT,
+		tracked: map[string]string{"eff": stepsInit},
+		skip:    []string{"if err != nil { return err }"},
+		stmts:   stepStmts(map[string]string{"err := g.updatePots()": "updatePots", "err = g.CalculateGameResults()": "CalculateGameResults"}),
+		returns: stepReturns(map[string]string{"g.EmitEvent(GameEvent_SettlementCompleted)": "SettlementCompleted"}),
+		result:  "v_eff",
+	},
+	{
+		file: "game.go", recv: "game", name: "ResetRoundStatus", leanName: "resetRoundStatus",
+		params: "(dealer : Int)", resultType: "Int × Int × Int × Int × Int",
+		tracked: map[string]string{"g.gs.Status.PreviousRaiseSize": "(1 : Int)", "g.gs.Status.CurrentRoundPot": "(1 : Int)",
+			"g.gs.Status.CurrentWager": "(1 : Int)", "g.gs.Status.CurrentRaiser": "(-1 : Int)", "g.gs.Status.CurrentPlayer": "(-1 : Int)"},
+		exprs:   map[string]string{"g.Dealer().State().Idx": "dealer"},
+		skip:    []string{"g.gs.Status.MaxWager = 0"},
+		returns: map[string]string{"nil": "(v_g_gs_Status_PreviousRaiseSize, v_g_gs_Status_CurrentRoundPot, v_g_gs_Status_CurrentWager, v_g_gs_Status_CurrentRaiser, v_g_gs_Status_CurrentPlayer)"},
+		result:  "(v_g_gs_Status_PreviousRaiseSize, v_g_gs_Status_CurrentRoundPot, v_g_gs_Status_CurrentWager, v_g_gs_Status_CurrentRaiser, v_g_gs_Status_CurrentPlayer)",
+	},
+	{
+		file: "game.go", recv: "game", name: "BecomeRaiser", leanName: "becomeRaiser",
+		params: "(wager : Int)", resultType: effT,
+		tracked: map[string]string{"eff": effInit},
+		exprs:   map[string]string{"p.State().Wager": "wager"},
+		skip:    []string{"p.State().VPIP = true"},
+		stmts: map[string][2]string{"g.gs.Status.CurrentRaiser = p.SeatIndex()": {"eff", eff("setRaiser", "(0 : Int)")},
+			"g.ResetActedPlayers()": {"eff", eff("resetActed", "(0 : Int)")}, "p.State().Acted = true": {"eff", eff("acted", "(0 : Int)")}},
+		returns: map[string]string{"nil": "(none, v_eff)"},
+		result:  "(none, v_eff)",
+	},
+	{
+		file: "player.go", recv: "player", name: "PayAnte", leanName: "playerPayAnte",
+		params: "(ante : Int) (event : String) (wager : Int)", resultType: effT,
+		tracked: map[string]string{"eff": effInit},
+		exprs:   map[string]string{"gs.Meta.Ante": "ante", "gs.Status.CurrentEvent": "event", "p.State().Wager": "wager"},
+		skip:    actionSkip,
+		stmts:   map[string][2]string{"err := p.pay(gs.Meta.Ante, false)": {"eff", eff("payNoWager", "ante")}},
+		returns: merge(actionReturns, map[string]string{"nil": "(none, v_eff)"}),
+		result:  "(none, v_eff)",
+	},
+	{
+		file: "player.go", recv: "player", name: "PayBlinds", leanName: "playerPayBlinds",
+		params: "(event : String) (bb sb dealer : Int) (posBB posSB posDealer : Bool) (stack : Int)", resultType: effT,
+		tracked: map[string]string{"eff": effInit, "chips": "(0 : Int)"},
+		exprs: map[string]string{"gs.Status.CurrentEvent": "event", "gs.Meta.Blind.BB": "bb", "gs.Meta.Blind.SB": "sb", "gs.Meta.Blind.Dealer": "dealer",
+			"p.CheckPosition(\"bb\")": "posBB", "p.CheckPosition(\"sb\")": "posSB", "p.CheckPosition(\"dealer\")": "posDealer",
+			"p.State().StackSize": "stack"},
+		skip:    append([]string{"action :=", "action ="}, actionSkip...),
+		stmts:   map[string][2]string{"err := p.pay(chips, true)": {"eff", eff("pay", "v_chips")}},
+		returns: merge(actionReturns, map[string]string{"nil": "(none, v_eff)"}),
+		result:  "(none, v_eff)",
+	},
+	// loop bodies: one iteration as a function
+	{
+		file: "game.go", recv: "game", name: "GetAlivePlayerCount", leanName: "aliveCountStep",
+		params: "(count : Int) (fold : Bool)", resultType: "Int",
+		loop: "for _, p := range g.gs.Players", around: []string{"aliveCount := g.GetPlayerCount()", "return aliveCount"},
+		tracked: map[string]string{"aliveCount": "count"},
+		exprs:   map[string]string{"p.Fold": "fold"},
+		result:  "v_aliveCount",
+	},
+	{
+		file: "game.go", recv: "game", name: "GetMovablePlayerCount", leanName: "movableCountStep",
+		params: "(count : Int) (fold : Bool) (stack : Int)", resultType: "Int",
+		loop: "for _, p := range g.gs.Players", around: []string{"mCount := g.GetPlayerCount()", "return mCount"},
+		tracked: map[string]string{"mCount": "count"},
+		exprs:   map[string]string{"p.Fold": "fold", "p.StackSize": "stack"},
+		result:  "v_mCount",
+	},
+	{
+		file: "game.go", recv: "game", name: "ResetActedPlayers", leanName: "resetActedStep",
+		params: "(acted : Bool)", resultType: "Bool",
+		loop: "for _, ps := range g.gs.Players", around: []string{"return nil"},
+		tracked: map[string]string{"ps.Acted": "acted"},
+		result:  "v_ps_Acted",
+	},
+	{
+		file: "game.go", recv: "game", name: "ResetAllPlayerStatus", leanName: "resetPlayerStatusStep",
+		params: "(fold : Bool) (pot wager initial stack : Int)", resultType: "Bool × Int × Int × Int",
+		loop: "for _, p := range g.GetPlayers()", around: []string{"return nil"},
+		tracked: map[string]string{"ps.Pot": "pot", "ps.Wager": "wager", "ps.InitialStackSize": "initial", "allowedCleared": "false"},
+		exprs:   map[string]string{"ps.Fold": "fold", "ps.StackSize": "stack"},
+		skip:    []string{"ps := p.State()", "ps.DidAction ="},
+		stmts:   map[string][2]string{"ps.AllowedActions = make([]string, 0)": {"allowedCleared", "true"}},
+		result:  "(v_allowedCleared, v_ps_Pot, v_ps_Wager, v_ps_InitialStackSize)",
+	},
+	{
+		file: "game.go", recv: "game", name: "ResetAllPlayerAllowedActions", leanName: "resetAllowedLoopStep",
+		params: "", resultType: stepsT,
+		loop: "for _, p := range g.GetPlayers()", around: []string{"return nil"},
+		tracked: map[string]string{"eff": stepsInit},
+		stmts:   stepStmts(map[string]string{"p.Reset()": "p.Reset()"}),
+		result:  "v_eff",
+	},
+	{
+		file: "player.go", recv: "player", name: "Reset", leanName: "playerReset",
+		params: "", resultType: stepsT,
+		tracked: map[string]string{"eff": stepsInit},
+		stmts:   stepStmts(map[string]string{"p.state.Acted = false": "Acted = false"}),
+		returns: stepReturns(map[string]string{"p.ResetAllowedActions()": "ResetAllowedActions"}),
+		result:  "v_eff",
+	},
+	{
+		file: "game.go", recv: "game", name: "NextPlayer", leanName: "nextPlayerStep",
+		params: "(cur playerCount : Int)", resultType: "Int",
+		loop: "for i := 1; i < playerCount; i++", around: []string{"cur := g.gs.Status.CurrentPlayer", "playerCount := g.GetPlayerCount()", "return nil"},
+		tracked: map[string]string{"cur": "cur"},
+		exprs:   map[string]string{"playerCount": "playerCount"},
+		skip:    []string{"p := g.gs.Players[cur]"},
+		returns: map[string]string{"g.Player(p.Idx)": "v_cur"},
+		result:  "v_cur",
+	},
+}
+
+func init() {
+	betting := map[string]bool{"becomeRaiser": true, "playerPayAnte": true, "playerPayBlinds": true}
+	for _, s := range moreSpecs {
+		if betting[s.leanName] {
+			add("", s)
+		} else {
+			add("Flow", s)
+		}
+	}
+}
+
+// ---- the current player, the event dispatch, Resume ----
+
+var events = []string{"Started", "Initialized", "Prepared", "AnteRequested", "AntePaid", "BlindsRequested", "BlindsPaid", "ReadyRequested",
+	"Readiness", "PreflopRoundEntered", "FlopRoundEntered", "TurnRoundEntered", "RiverRoundEntered", "RoundInitialized", "RoundPrepared",
+	"RoundStarted", "RoundClosed", "GameCompleted", "SettlementRequested", "SettlementCompleted", "GameClosed"}
+
+func init() {
+	evExprs := map[string]string{"event": "event"}
+	evReturns := map[string]string{"nil": "nil"}
+	for _, e := range events {
+		evExprs["GameEvent_"+e] = "\"" + e + "\""
+		evReturns["g.on"+e+"()"] = "on" + e
+	}
+	add("Flow",
+		&spec{
+			file: "game.go", recv: "game", name: "SetCurrentPlayer", leanName: "setCurrentPlayer",
+			params: "(hasCurrent pNotNil : Bool)", resultType: stepsT,
+			tracked: map[string]string{"eff": stepsInit},
+			exprs:   map[string]string{"g.gs.Status.CurrentPlayer != -1": "hasCurrent", "p != nil": "pNotNil"},
+			skip:    []string{"if err != nil { return err }", "actions := g.GetAllowedActions(p)"},
+			stmts: stepStmts(map[string]string{"g.GetCurrentPlayer().ResetAllowedActions()": "GetCurrentPlayer().ResetAllowedActions()",
+				"err := g.setCurrentPlayer(p)": "setCurrentPlayer(p)", "p.AllowActions(actions)": "p.AllowActions(GetAllowedActions(p))"}),
+			returns: map[string]string{"nil": "v_eff"},
+			result:  "v_eff",
+		},
+		&spec{
+			file: "game.go", recv: "game", name: "setCurrentPlayer", leanName: "setCurrentPlayerField",
+			params: "(pIsNil : Bool) (seat current : Int)", resultType: "Int",
+			tracked: map[string]string{"g.gs.Status.CurrentPlayer": "current"},
+			exprs:   map[string]string{"p == nil": "pIsNil", "p.SeatIndex()": "seat"},
+			returns: map[string]string{"nil": "v_g_gs_Status_CurrentPlayer"},
+			result:  "v_g_gs_Status_CurrentPlayer",
+		},
+		&spec{
+			file: "game.go", recv: "game", name: "GetAllowedActions", leanName: "getAllowedActions",
+			params: "(current seat : Int)", resultType: stepsT,
+			tracked: map[string]string{"eff": stepsInit},
+			exprs:   map[string]string{"g.gs.Status.CurrentPlayer": "current", "p.SeatIndex()": "seat"},
+			returns: stepReturns(map[string]string{"g.GetAvailableActions(p)": "GetAvailableActions(p)", "make([]string, 0)": "[]"}),
+			result:  "v_eff",
+		},
+		&spec{
+			file: "event.go", recv: "game", name: "triggerEvent", leanName: "triggerEvent",
+			params: "(event : String)", resultType: stepsT,
+			tracked: map[string]string{"eff": stepsInit},
+			exprs:   evExprs, skip: []string{"defer g.onBreakPoint()"},
+			returns: stepReturns(evReturns), result: "v_eff",
+		},
+		&spec{
+			file: "event.go", recv: "game", name: "EmitEvent", leanName: "emitEvent",
+			params: "", resultType: stepsT,
+			tracked: map[string]string{"eff": stepsInit},
+			stmts:   stepStmts(map[string]string{"g.gs.Status.CurrentEvent = GameEventSymbols[event]": "CurrentEvent = GameEventSymbols[event]"}),
+			returns: stepReturns(map[string]string{"g.triggerEvent(event)": "triggerEvent(event)"}), result: "v_eff",
+		},
+		&spec{
+			file: "game.go", recv: "game", name: "Resume", leanName: "resume",
+			params: "(event : String)", resultType: stepsT,
+			tracked: map[string]string{"eff": stepsInit},
+			exprs:   map[string]string{"len(g.gs.Status.CurrentEvent)": "(event.length : Int)"},
+			skip:    []string{"event := GameEventBySymbol[g.gs.Status.CurrentEvent]"},
+			returns: stepReturns(map[string]string{"g.EmitEvent(event)": "EmitEvent(CurrentEvent)", "nil": "nil"}), result: "v_eff",
+		},
+		chainSpec("event.go", "onReadyRequested", "nil", "nil"),
+		chainSpec("event.go", "onAnteRequested", "nil", "nil"),
+		chainSpec("event.go", "onBlindsRequested", "nil", "nil"),
+		chainSpec("game.go", "RequestAnte", "g.EmitEvent(GameEvent_AnteRequested)", "AnteRequested"),
+	)
+	add("Flow", &spec{
+		file: "game.go", recv: "game", name: "StartAtDealer", leanName: "startAtDealer",
+		params: "(noDealer : Bool)", resultType: stepsT,
+		tracked: map[string]string{"eff": stepsInit},
+		exprs:   map[string]string{"dealer == nil": "noDealer"},
+		skip:    []string{"dealer := g.Dealer()", "if err != nil { return nil, err }"},
+		stmts:   stepStmts(map[string]string{"err := g.SetCurrentPlayer(dealer)": "SetCurrentPlayer(Dealer)"}),
+		returns: stepReturns(map[string]string{"nil, ErrNotFoundDealer": "ErrNotFoundDealer", "dealer, nil": "nil"}), result: "v_eff",
+	})
+	// action.go: the game-level actions address the current player
+	for _, a := range []string{"Pass()", "Pay(chips)", "Fold()", "Check()", "Call()", "Allin()", "Bet(chips)", "Raise(chipLevel)"} {
+		name := a[:strings.Index(a, "(")]
+		c := chainSpec("action.go", name, "g.GetCurrentPlayer()."+a, "GetCurrentPlayer()."+a)
+		c.leanName = "game" + name
+		add("Flow", c)
+	}
+	for _, r := range []string{"Preflop", "Flop", "Turn", "River"} {
+		add("Flow", &spec{
+			file: "game.go", recv: "game", name: "Enter" + r + "Round", leanName: "enter" + r + "Round",
+			params: "", resultType: stepsT, tracked: map[string]string{"eff": stepsInit},
+			stmts:   stepStmts(map[string]string{"g.gs.Status.Round = \"" + strings.ToLower(r) + "\"": "Round = " + strings.ToLower(r)}),
+			returns: stepReturns(map[string]string{"g.EmitEvent(GameEvent_" + r + "RoundEntered)": r + "RoundEntered"}), result: "v_eff",
+		})
+	}
+}
+
 func main() {
 	root := "/repo"
 	out := "/verif/lean/Pokerface/Generated"
@@ -284,10 +1052,19 @@ func main() {
 	if len(os.Args) > 2 {
 		out = os.Args[2]
 	}
+	for _, group := range []string{"", "Flow", "SM"} {
+		writeGroup(root, out, group)
+	}
+}
+
+func writeGroup(root, out, group string) {
 	var b strings.Builder
 	b.WriteString("import Pokerface.Model.Cards\n/- GENERATED by /verif/harness/cmd/genlogic from the Go AST of the repository under test. Do not edit. -/\n")
-	b.WriteString("namespace Pokerface.Generated.Logic\nopen Pokerface\n\n")
+	b.WriteString("set_option linter.unusedVariables false\nnamespace Pokerface.Generated.Logic\nopen Pokerface\n\n")
 	for _, s := range specs {
+		if s.group != group {
+			continue
+		}
 		fd := findFunc(root, s)
 		fmt.Fprintf(&b, "/-- %s: `%s%s`, translated from the source. -/\n", s.file, map[bool]string{true: "(" + s.recv + ") ", false: ""}[s.recv != ""], s.name)
 		if fd == nil || fd.Body == nil {
@@ -295,9 +1072,18 @@ func main() {
 			continue
 		}
 		t := &tr{s: s}
-		body := t.block(fd.Body.List, s.result)
-		for v, init := range s.tracked {
-			body = "(let " + leanVar(v) + " := " + init + "\n " + body + ")"
+		stmts := fd.Body.List
+		if s.loop != "" {
+			stmts = t.loopBody(stmts)
+		}
+		body := t.block(stmts, s.result, scope{}, scope{})
+		var vars []string
+		for v := range s.tracked {
+			vars = append(vars, v)
+		}
+		sort.Strings(vars)
+		for _, v := range vars {
+			body = "(let " + leanVar(v) + " := " + s.tracked[v] + "\n " + body + ")"
 		}
 		for _, f := range t.fail {
 			fmt.Fprintf(&b, "-- UNTRANSLATED %s\n", f)
@@ -305,7 +1091,7 @@ func main() {
 		fmt.Fprintf(&b, "def %s %s : %s :=\n %s\n\n", s.leanName, s.params, s.resultType, body)
 	}
 	b.WriteString("end Pokerface.Generated.Logic\n")
-	path := filepath.Join(out, "Logic.lean")
+	path := filepath.Join(out, "Logic"+group+".lean")
 	old, err := os.ReadFile(path)
 	if err == nil && string(old) == b.String() {
 		return
